@@ -363,6 +363,26 @@ def replay_file(prop, path, quiet=False):
 
 
 def run_check(prop, tier, seed):
+    """all scratch directories of a run live under one run-specific directory that is removed at the end, also when
+    a shrinking child had to be terminated (its `finally` clauses do not run then)"""
+    import tempfile
+    import shutil
+    scratch = tempfile.mkdtemp(prefix="bvverif_%s_" % prop)
+    old_tmp = (os.environ.get("TMPDIR"), tempfile.tempdir)
+    os.environ["TMPDIR"] = scratch
+    tempfile.tempdir = scratch
+    try:
+        return _run_check(prop, tier, seed)
+    finally:
+        tempfile.tempdir = old_tmp[1]
+        if old_tmp[0] is None:
+            os.environ.pop("TMPDIR", None)
+        else:
+            os.environ["TMPDIR"] = old_tmp[0]
+        shutil.rmtree(scratch, ignore_errors=True)
+
+
+def _run_check(prop, tier, seed):
     t0 = time.time()
     mod = load_check(prop)
     known = Known()
